@@ -589,14 +589,14 @@ func c17(c *Ctx) {
 					if after := adapter.PStatus(st).String(); before != after {
 						c.Res.Violate("C17:result-aliases-buffer:Listen", fmt.Sprintf("a delivered event changed when the receive buffer was reused: %s -> %s", before, after), nil, caseNo)
 					}
-				case <-time.After(2 * time.Second):
+				case <-liveAfter(2 * time.Second):
 					c.Res.Inconcl("listener did not deliver the pushed event")
 				}
 			}
 			q <- os.Interrupt
 			select {
 			case <-done:
-			case <-time.After(3 * time.Second):
+			case <-liveAfter(3 * time.Second):
 				c.Res.Inconcl("listener did not stop")
 			}
 		}
